@@ -55,6 +55,23 @@ def gen_case(seed, i, nvar):
         roots = list(roots)
         roots.insert(rng.randint(0, len(roots)), rng.choice(subs) if subs and rng.random() < 0.6 else rng.choice(roots))
         nroots = len(roots)
+    if "--isolate" not in gflags and rng.random() < 0.25:
+        # FILE input paths, some of them spelled through a directory symlink (zz/d/link -> ../e): the same file is
+        # named by several input paths, next to one another in any order
+        regs = [e for e in world.entries if e["t"] == "f"]
+        if regs:
+            src = rng.choice(regs)
+            base_ = roots[0] + "/zz"
+            world.add_file(base_ + "/e/sub/f", dict(src["c"])); world.add_file(base_ + "/d/a", dict(src["c"]))
+            world.add_file(base_ + "/e/sub/g", dict(src["c"]))
+            world.add_symlink(base_ + "/d/link", "../e")
+            roots = list(roots)
+            extra = [base_ + "/d/a", base_ + "/d/link/sub/f"] + rng.sample([base_ + "/e", base_ + "/d/link/sub/g", base_ + "/e/sub/f", base_ + "/d/link"], rng.randint(0, 2))
+            if rng.random() < 0.4:
+                roots = []          # the files alone, without the directory that contains them all
+            for x in extra:
+                roots.insert(rng.randint(0, len(roots)), x)
+            nroots = len(roots)
     variants = []
     for v in range(nvar):
         perm = list(range(nroots))
